@@ -250,6 +250,7 @@ type Checker struct {
 
 	chooseAlternatives map[t.QID][]t.ID
 	noRecursiveMarks   map[t.QID]uint8
+	noRecursiveDepth   uint32
 
 	unsortedStructs []*a.Struct
 }
@@ -799,7 +800,17 @@ func (c *Checker) checkNoRecursiveFuncs(node *a.Node) error {
 	return err
 }
 
+// maxCallChainDepth limits the length of a chain of Wuffs function calls (f
+// calls g calls h etc), which is also checkNoRecursiveFuncs1's recursion depth.
+const maxCallChainDepth = 1024
+
 func (c *Checker) checkNoRecursiveFuncs1(dst []t.QID, n *a.Func) ([]t.QID, error) {
+	if c.noRecursiveDepth > maxCallChainDepth {
+		return nil, fmt.Errorf("check: call chain depth too large at %s", n.QQID().Str(c.tm))
+	}
+	c.noRecursiveDepth++
+	defer func() { c.noRecursiveDepth-- }()
+
 	nQID := n.QQID().QIDSuffix()
 	dst = append(dst, nQID)
 
